@@ -73,10 +73,11 @@ class RuleMd003(RulePlugin):
             default_value=RuleMd003.__consistent_style,
             valid_value_fn=self.__validate_configuration_style,
         )
+        allow_setext_update = self.plugin_configuration.get_boolean_property(
+            "allow-setext-update", default_value=False
+        )
         self.__allow_consistent_setext_update = (
-            self.plugin_configuration.get_boolean_property(
-                "allow-setext-update", default_value=False
-            )
+            allow_setext_update
             if self.__style_type == RuleMd003.__consistent_style
             else False
         )
